@@ -20,13 +20,20 @@ structure SimpOK (p : α → Bool) : Prop where
   flat : ∀ (n : Nat) (e f : Exp α), allLits p e = true → Exp.flattenF n e = some f → allLits p f = true
   simp : ∀ e : Exp α, allLits p e = true → allLits p (Exp.simplify e) = true
 
+theorem normalizeExp_ok (hs : SimpOK p) {e f : Exp α} (he : allLits p e = true)
+    (h : normalizeExp e = some f) : allLits p f = true := by
+  unfold normalizeExp at h
+  simp only [Option.map_eq_some_iff] at h
+  obtain ⟨fl, hfl, rfl⟩ := h
+  exact hs.simp _ (hs.flat _ _ _ (hs.simp _ he) hfl)
+
 theorem simplifyFlat_sp (hs : SimpOK p) {e : Exp α} (he : allLits p e = true) (s : St α) :
     SpAt (Rel N p) s (simplifyFlat e) (fun x => allLits p x = true) := by
   unfold simplifyFlat
   split
   · exact SpAt.fail
   · rename_i f hf
-    exact SpAt.pure (rel_isPre _ _) (hs.simp _ (hs.flat _ _ _ he hf))
+    exact SpAt.pure (rel_isPre _ _) (normalizeExp_ok hs he hf)
 
 theorem emitConstraint_sp (hN : N "") (hp : Closed p) (hs : SimpOK p) {lhs rhs : Exp α}
     (hl : allLits p lhs = true) (hr : allLits p rhs = true) {name : String} (hn : N name) (cmp : Cmp) (s : St α) :
@@ -35,9 +42,8 @@ theorem emitConstraint_sp (hN : N "") (hp : Closed p) (hs : SimpOK p) {lhs rhs :
   split
   · exact SpAt.fail
   · rename_i fl hfl
-    dsimp only
-    have hfl' : allLits p fl.simplify = true :=
-      hs.simp _ (hs.flat _ _ _ (by simp [allLits, hl, hr]) hfl)
+    have hfl' : allLits p fl = true :=
+      normalizeExp_ok hs (by simp [allLits, hl, hr]) hfl
     refine SpAt.bind (rel_isPre _ _) ((linExp_block hN hp).1 _ _ hfl' s) ?_
     intro v hv s1
     refine SpAt.modify (Rel.of_domain_eq rfl ?_) trivial
